@@ -71,6 +71,8 @@ public:
             out.arr().str("UnitSystem").str(data.getName()).i((int)data.getType()).end_arr();
         } else if constexpr (std::is_same_v<U, Opm::KeywordLocation>) {
             out.null();
+        } else if constexpr (std::is_same_v<U, std::monostate>) {
+            out.null();
         } else if constexpr (sd::is_sptr<U>::value) {
             if (data) (*this)(*data); else out.null();
         } else if constexpr (sd::is_tup<U>::value) {
